@@ -240,6 +240,11 @@ func main() {
 	}
 }
 
+// racePhase: scenario-name prefixes that are explored a second time in race mode.
+var racePhase = map[string][]string{
+	"C20": {"C20/fallback/", "C20/sno/g2x2"},
+}
+
 func runCheck(prop, tier, only string, budgetOverride time.Duration) int {
 	t0 := time.Now()
 	seed := 0
@@ -295,77 +300,115 @@ func runCheck(prop, tier, only string, budgetOverride time.Duration) int {
 		return 2
 	}
 	json.Unmarshal(jobsOut, &jobMeta)
+	var jobMeta2 []string // names of the (filtered) jobs
 	if only != "" {
 		var js []json.RawMessage
 		for i, j := range jobs {
 			if jobMeta[i].Name == only || (strings.HasSuffix(only, "*") && strings.HasPrefix(jobMeta[i].Name, only[:len(only)-1])) {
 				js = append(js, j)
+				jobMeta2 = append(jobMeta2, jobMeta[i].Name)
 			}
 		}
 		jobs = js
+	} else {
+		for _, m := range jobMeta {
+			jobMeta2 = append(jobMeta2, m.Name)
+		}
 	}
-	if len(jobs) < n {
-		n = len(jobs)
-	}
-	if n == 0 {
+	if len(jobs) == 0 {
 		fmt.Fprintf(os.Stderr, "vcheck: no job for %s\n", prop)
 		return 2
 	}
 	deadline := time.Now().Add(budget)
 	var mu sync.Mutex
-	next := 0
 	var reports []*report
-	errs := make([]string, n)
-	var wg sync.WaitGroup
-	for i := 0; i < n; i++ {
-		wg.Add(1)
-		go func(i int) {
-			defer wg.Done()
-			c := exec.Command(worker, "-serve", "-prop", prop, "-tier", tier, "-replays", replayDir, "-deadline", strconv.FormatInt(deadline.UnixNano(), 10))
-			c.Env = append(os.Environ(), "GOMAXPROCS=2")
-			if race {
-				c.Env = append(c.Env, "GORACE=halt_on_error=0 log_path="+filepath.Join(scratch, "race"), "VERIF_RACE_LOG="+filepath.Join(scratch, "race"))
-			}
-			stdin, _ := c.StdinPipe()
-			stdout, _ := c.StdoutPipe()
-			var stderr strings.Builder
-			c.Stderr = &stderr
-			if err := c.Start(); err != nil {
-				errs[i] = err.Error()
-				return
-			}
-			dec := json.NewDecoder(stdout)
-			for {
-				mu.Lock()
-				if next >= len(jobs) {
+	// dispatch serves a job list to worker processes of one build (plain or race mode)
+	dispatch := func(worker string, race bool, jobs []json.RawMessage) int {
+		n := n
+		if len(jobs) < n {
+			n = len(jobs)
+		}
+		next := 0
+		errs := make([]string, n)
+		var wg sync.WaitGroup
+		for i := 0; i < n; i++ {
+			wg.Add(1)
+			go func(i int) {
+				defer wg.Done()
+				c := exec.Command(worker, "-serve", "-prop", prop, "-tier", tier, "-replays", replayDir, "-deadline", strconv.FormatInt(deadline.UnixNano(), 10))
+				c.Env = append(os.Environ(), "GOMAXPROCS=2")
+				if race {
+					c.Env = append(c.Env, "GORACE=halt_on_error=0 log_path="+filepath.Join(scratch, "race"), "VERIF_RACE_LOG="+filepath.Join(scratch, "race"))
+				}
+				stdin, _ := c.StdinPipe()
+				stdout, _ := c.StdoutPipe()
+				var stderr strings.Builder
+				c.Stderr = &stderr
+				if err := c.Start(); err != nil {
+					errs[i] = err.Error()
+					return
+				}
+				dec := json.NewDecoder(stdout)
+				for {
+					mu.Lock()
+					if next >= len(jobs) {
+						mu.Unlock()
+						break
+					}
+					j := jobs[next]
+					next++
 					mu.Unlock()
-					break
+					if _, err := stdin.Write(append(j, '\n')); err != nil {
+						errs[i] = fmt.Sprintf("worker %d: %v\n%s", i, err, tail(stderr.String(), 60))
+						break
+					}
+					var r report
+					if err := dec.Decode(&r); err != nil {
+						errs[i] = fmt.Sprintf("worker %d died on job %s: %v\n%s", i, string(j), err, tail(stderr.String(), 60))
+						break
+					}
+					mu.Lock()
+					reports = append(reports, &r)
+					mu.Unlock()
 				}
-				j := jobs[next]
-				next++
-				mu.Unlock()
-				if _, err := stdin.Write(append(j, '\n')); err != nil {
-					errs[i] = fmt.Sprintf("worker %d: %v\n%s", i, err, tail(stderr.String(), 60))
-					break
-				}
-				var r report
-				if err := dec.Decode(&r); err != nil {
-					errs[i] = fmt.Sprintf("worker %d died on job %s: %v\n%s", i, string(j), err, tail(stderr.String(), 60))
-					break
-				}
-				mu.Lock()
-				reports = append(reports, &r)
-				mu.Unlock()
+				stdin.Close()
+				c.Wait()
+			}(i)
+		}
+		wg.Wait()
+		for _, e := range errs {
+			if e != "" {
+				fmt.Fprintln(os.Stderr, "vcheck: worker failed:", e)
+				return 2
 			}
-			stdin.Close()
-			c.Wait()
-		}(i)
+		}
+		return 0
 	}
-	wg.Wait()
-	for _, e := range errs {
-		if e != "" {
-			fmt.Fprintln(os.Stderr, "vcheck: worker failed:", e)
-			return 2
+	if rc := dispatch(worker, race, jobs); rc != 0 {
+		return rc
+	}
+	// second phase in race mode (DESIGN.md §2.5) for the scenarios of properties other than C17
+	// whose subject is a small piece of shared state drawn from concurrently: a data race there
+	// (two draws not ordered by the generator's own synchronisation) is a violation of the
+	// property's "concurrently" clause that the cooperative scheduler alone cannot see, because
+	// it never interleaves two plain statements
+	if prefixes := racePhase[prop]; len(prefixes) > 0 && !race {
+		scratch2, worker2, _ := build(true)
+		defer os.RemoveAll(scratch2)
+		scratch = scratch2 // race logs of this phase
+		var js []json.RawMessage
+		for i, j := range jobs {
+			for _, p := range prefixes {
+				if strings.HasPrefix(jobMeta2[i], p) {
+					js = append(js, j)
+					break
+				}
+			}
+		}
+		if len(js) > 0 {
+			if rc := dispatch(worker2, true, js); rc != 0 {
+				return rc
+			}
 		}
 	}
 	// merge
